@@ -8,4 +8,6 @@ CONSTANTS
   Nested = FALSE
   OptionSet <- QuickOptions
   OwnLineOptions <- QuickOptions
+  AllAtomsUpTo = 1
+  DefaultFrom = 99
 INVARIANTS FSpineOK FEmit
